@@ -1,6 +1,7 @@
 import AsynqModel.Lib.Decorators
 import AsynqModel.Proofs.Decorators
 import AsynqModel.Proofs.DecoratorsSib
+import AsynqModel.Proofs.DecoratorsFn
 /-!
 # C09  All ways of calling an async function agree, for every kind of callable
 
@@ -24,6 +25,15 @@ What the statements do NOT say (it rests on the differential run against the rea
   that it treats receivers parametrically: `C09_any_receiver` holds for ARBITRARY instance and class tokens;
 * the class of a raised exception, a user task class, a user key function are not inputs either.
 
+GENUINE DEFECT modelled as it is (`asyncCall`): `def async_call(fn, *args, **kwargs)` binds the callable to a
+positional-or-keyword parameter, so `async_call(f, fn=1)` raises TypeError although `f(fn=1)` and `f.asynq(fn=1)` run the
+body.  Every theorem that speaks about an async_call convention therefore carries the decidable hypothesis
+`a.fnFree = true` (no keyword argument is called `fn`) and is named `..._partial`; `C09_async_call_kw_fn` states what
+happens otherwise (for every cell), `C09_async_call_fn_counterexample` is the concrete witness (the model's own report
+is rejected by `spec`), and `modelCvF` / `modelReportF` are the repaired tree (`fn` positional-only), for which the
+unconditional statements hold (`C09_spec_holds_repaired`).  The theorems about conventions that do not go through
+async_call (`C09_sync`, `C09_direct`, `C09_classify`, `C09_any_receiver`, ...) need no such hypothesis.
+
 History: the check found that `@async_proxy(pure=True)` returned the function unmarked, so the helpers did not
 recognise it; that was repaired in the library (the decorator now sets `is_pure_async_fn` on the function, as
 `lazy` does), the model follows the repaired code and `C09_proxy_pure` states the repaired behaviour.
@@ -34,11 +44,13 @@ namespace AsynqModel.Decorators
     `async_call`, `get_async_fn` (with and without wrap_if_none), `get_async_or_sync_fn` and `.asynq(...)` next to a
     same-named twin in flight all produce literally the same result term.  (Seven distinct computations; inside the
     pairs `asynqValue`/`yieldAsynq` and `asyncCall`/`asyncCallSync` the equation holds by definition, see the header.) -/
-theorem C09_agree (c : Cell) (a : Args) (keyOf : Args → Args) (cv₁ cv₂ : Cv)
+theorem C09_agree_partial (c : Cell) (a : Args) (keyOf : Args → Args) (cv₁ cv₂ : Cv)
     (h : supported c.kind c.ft c.acc = true)
-    (h₁ : available c.kind cv₁ = true) (h₂ : available c.kind cv₂ = true) :
+    (h₁ : available c.kind cv₁ = true) (h₂ : available c.kind cv₂ = true) (hfn : a.fnFree = true) :
     (modelCv (Env.idle keyOf) c cv₁ a).res = (modelCv (Env.idle keyOf) c cv₂ a).res := by
+  rw [modelCv_eq_F _ _ _ _ _ hfn, modelCv_eq_F _ _ _ _ _ hfn]
   obtain ⟨k, ft, acc, bk⟩ := c
+  show (modelCvF (Env.idle keyOf) ⟨k, ft, acc, bk⟩ cv₁ a).res = (modelCvF (Env.idle keyOf) ⟨k, ft, acc, bk⟩ cv₂ a).res
   rw [modelCv_eq_ref k ft acc bk cv₁ a keyOf h (available_not_sib _ _ h₁),
       modelCv_eq_ref k ft acc bk cv₂ a keyOf h (available_not_sib _ _ h₂)]
   cases k <;> cases cv₁ <;> cases cv₂ <;> first | rfl | (simp [available, Kind.hasAsynq] at h₁ h₂)
@@ -50,13 +62,15 @@ theorem C09_agree (c : Cell) (a : Args) (keyOf : Args → Args) (cv₁ cv₂ : C
     instance, the class the attribute was fetched through, or nothing) or the instance the caller passed explicitly
     to an unbound method - never both, never twice.  (`Cell.refVal`: for an UNDECORATED generator function the
     conventions end in the generator object built with exactly these arguments; nothing runs it - `C09_raw_generator`.) -/
-theorem C09_receiver (c : Cell) (a : Args) (keyOf : Args → Args) (cv : Cv)
-    (h : supported c.kind c.ft c.acc = true) (hv : available c.kind cv = true) :
+theorem C09_receiver_partial (c : Cell) (a : Args) (keyOf : Args → Args) (cv : Cv)
+    (h : supported c.kind c.ft c.acc = true) (hv : available c.kind cv = true) (hfn : a.fnFree = true) :
     (modelCv (Env.idle keyOf) c cv a).res =
         c.refVal ⟨1, { pos := refPrefix c.ft c.acc 0 ++ (explicitSelf c.ft c.acc 0 ++ a.pos), kw := a.kw },
                   c.kind.userWrapped⟩ ∧
       (refPrefix c.ft c.acc 0 ++ explicitSelf c.ft c.acc 0).length = (if hasRecvParam c.ft c.acc then 1 else 0) := by
+  rw [modelCv_eq_F _ _ _ _ _ hfn]
   obtain ⟨k, ft, acc, bk⟩ := c
+  show (modelCvF (Env.idle keyOf) ⟨k, ft, acc, bk⟩ cv a).res = _ ∧ _
   rw [modelCv_eq_ref k ft acc bk cv a keyOf h (available_not_sib _ _ hv)]
   constructor
   · cases k <;> cases cv <;> first | rfl | (simp [available, Kind.hasAsynq] at hv)
@@ -69,7 +83,9 @@ theorem C09_sync (c : Cell) (a : Args) (keyOf : Args → Args) (cv : Cv)
     (h : supported c.kind c.ft c.acc = true) (hv : cv = .sync ∨ cv = .nestedSync) :
     modelCv (Env.idle keyOf) c cv a =
       ⟨[], c.refVal ⟨if c.kind.hasSyncFn then 2 else 1, refArgs c.ft c.acc 0 a, c.kind.userWrapped⟩, c.kind.pureLike⟩ := by
+  rw [modelCv_eq_F_other _ _ _ _ _ (by rcases hv with rfl | rfl <;> rfl)]
   obtain ⟨k, ft, acc, bk⟩ := c
+  show modelCvF (Env.idle keyOf) ⟨k, ft, acc, bk⟩ cv a = _
   rw [modelCv_eq_ref k ft acc bk cv a keyOf h (by rcases hv with rfl | rfl <;> rfl)]
   rcases hv with rfl | rfl <;> cases k <;> rfl
 
@@ -80,7 +96,9 @@ theorem C09_direct (c : Cell) (a : Args) (keyOf : Args → Args) (cv : Cv)
     (h : supported c.kind c.ft c.acc = true) (hv : cv = .asynqValue ∨ cv = .yieldAsynq ∨ cv = .twin) :
     (modelCv (Env.idle keyOf) c cv a).res =
       (if c.kind.hasAsynq then .val ⟨1, refArgs c.ft c.acc 0 a, c.kind.userWrapped⟩ else .err .noAsynq) := by
+  rw [modelCv_eq_F_other _ _ _ _ _ (by rcases hv with rfl | rfl | rfl <;> rfl)]
   obtain ⟨k, ft, acc, bk⟩ := c
+  show (modelCvF (Env.idle keyOf) ⟨k, ft, acc, bk⟩ cv a).res = _
   rw [modelCv_eq_ref k ft acc bk cv a keyOf h (by rcases hv with rfl | rfl | rfl <;> rfl)]
   rcases hv with rfl | rfl | rfl <;> cases k <;> rfl
 
@@ -90,8 +108,9 @@ theorem C09_direct (c : Cell) (a : Args) (keyOf : Args → Args) (cv : Cv)
     the parameters; otherwise the object the async body returned (wrapped iff make_async_decorator) or the exception it
     raised, and - the twin convention aside, which also logs the twin - exactly ONE entry of body 1 that saw the bound
     parameters.  (Cells other than undecorated generator functions; those are `C09_raw_generator`.) -/
-theorem C09_outcome (c : Cell) (a : Args) (keyOf : Args → Args) (s : Sig) (raises : Bool) (cv : Cv)
-    (h : supported c.kind c.ft c.acc = true) (hv : available c.kind cv = true) (hr : c.rawGen = false) :
+theorem C09_outcome_partial (c : Cell) (a : Args) (keyOf : Args → Args) (s : Sig) (raises : Bool) (cv : Cv)
+    (h : supported c.kind c.ft c.acc = true) (hv : available c.kind cv = true) (hr : c.rawGen = false)
+    (hfn : a.fnFree = true) :
     (obsOf s raises cv (modelCv (Env.idle keyOf) c cv a)).out =
         (match bind s (refArgs c.ft c.acc 0 a) with
          | some _ => bodyOutcome raises 1 c.kind.userWrapped
@@ -101,7 +120,10 @@ theorem C09_outcome (c : Cell) (a : Args) (keyOf : Args → Args) (s : Sig) (rai
           (match bind s (refArgs c.ft c.acc 0 a) with
            | some seen => [⟨1, seen, true⟩]
            | none => [])) := by
+  rw [modelCv_eq_F _ _ _ _ _ hfn]
   obtain ⟨k, ft, acc, bk⟩ := c
+  show (obsOf s raises cv (modelCvF (Env.idle keyOf) ⟨k, ft, acc, bk⟩ cv a)).out = _ ∧
+    (cv ≠ .twin → (obsOf s raises cv (modelCvF (Env.idle keyOf) ⟨k, ft, acc, bk⟩ cv a)).log = _)
   rw [modelCv_eq_ref k ft acc bk cv a keyOf h (available_not_sib _ _ hv)]
   have hr' : Cell.rawGen ⟨k, ft, acc, bk⟩ = false := hr
   cases k <;> cases cv <;>
@@ -117,9 +139,9 @@ theorem C09_outcome (c : Cell) (a : Args) (keyOf : Args → Args) (s : Sig) (rai
     when the arguments do not bind.  `sync`, `async_call`, `get_async_or_sync_fn`, `get_async_fn(wrap_if_none=True)`
     agree on that; `.asynq`, `get_async_fn` are absent.  (Outside the statement of C09, which speaks about decorated
     callables; modelled because the helpers accept such functions.) -/
-theorem C09_raw_generator (ft : FnType) (acc : Access) (bk : BodyKind) (a : Args) (keyOf : Args → Args) (s : Sig)
+theorem C09_raw_generator_partial (ft : FnType) (acc : Access) (bk : BodyKind) (a : Args) (keyOf : Args → Args) (s : Sig)
     (raises : Bool) (cv : Cv) (h : supported .raw ft acc = true) (hb : bk ≠ .plain)
-    (hv : available .raw cv = true ∨ cv = .sync ∨ cv = .nestedSync) :
+    (hv : available .raw cv = true ∨ cv = .sync ∨ cv = .nestedSync) (hfn : a.fnFree = true) :
     (modelCv (Env.idle keyOf) ⟨.raw, ft, acc, bk⟩ cv a).res = .gen (.val ⟨1, refArgs ft acc 0 a, false⟩) ∧
     (obsOf s raises cv (modelCv (Env.idle keyOf) ⟨.raw, ft, acc, bk⟩ cv a)).log = [] ∧
     (obsOf s raises cv (modelCv (Env.idle keyOf) ⟨.raw, ft, acc, bk⟩ cv a)).out =
@@ -129,6 +151,10 @@ theorem C09_raw_generator (ft : FnType) (acc : Access) (bk : BodyKind) (a : Args
     · exact available_not_sib _ _ hv
     · rfl
     · rfl
+  rw [modelCv_eq_F _ _ _ _ _ hfn]
+  show (modelCvF (Env.idle keyOf) ⟨.raw, ft, acc, bk⟩ cv a).res = _ ∧
+    (obsOf s raises cv (modelCvF (Env.idle keyOf) ⟨.raw, ft, acc, bk⟩ cv a)).log = [] ∧
+    (obsOf s raises cv (modelCvF (Env.idle keyOf) ⟨.raw, ft, acc, bk⟩ cv a)).out = _
   rw [modelCv_eq_ref .raw ft acc bk cv a keyOf h hsib]
   cases bk <;> first | exact absurd rfl hb | skip
   all_goals
@@ -143,14 +169,15 @@ theorem C09_raw_generator (ft : FnType) (acc : Access) (bk : BodyKind) (a : Args
 /-- **the body kind of a DECORATED callable never shows** - plain function, generator function, generator blocking on
     a batch: `_call_pure` hands a generator object to the task (needs_wrapper) and wraps a plain function in
     `_fn_wrapper`; the tools wrappers and a wrapper_fn are generator functions around `.asynq`.  All these paths end in
-    the same result, for every convention (the two-call ones included), ARBITRARY arguments, key function separating
-    the two calls, hashes, returning or raising bodies. -/
+    the same result, for every convention (the two-call ones included), ARBITRARY arguments (a keyword called `fn`
+    included), ARBITRARY key function and hashes, returning or raising bodies.  (The hypothesis on the key function the
+    statement used to carry was unnecessary - second audit, item F.  In the model `gen` and `batch` are even the same
+    term: `build k ft .batch tw = build k ft .gen tw`; what a body yields is C01-C08's subject.) -/
 theorem C09_body_kind_irrelevant (k : Kind) (ft : FnType) (acc : Access) (bk bk' : BodyKind) (cv : Cv) (a : Args)
     (keyOf : Args → Args) (hf : Nat → Nat) (rs : Bool) (rel : Rel)
-    (h : supported k ft acc = true) (hk : k ≠ .raw)
-    (hkey : identicalSib ft acc rel a = false → keyOf (refArgsSib ft acc rel a) ≠ keyOf (refArgs ft acc 0 a)) :
+    (h : supported k ft acc = true) (hk : k ≠ .raw) :
     modelCv (Env.quiet keyOf hf rs) ⟨k, ft, acc, bk⟩ cv a rel = modelCv (Env.quiet keyOf hf rs) ⟨k, ft, acc, bk'⟩ cv a rel :=
-  bk_irrelevant k ft acc bk bk' cv a keyOf hf rs rel h hk hkey
+  bk_irrelevant_nokey k ft acc bk bk' cv a keyOf hf rs rel h hk
 
 /-- `k ≠ .raw` is needed in `C09_body_kind_irrelevant`: an undecorated generator function is not its plain twin -/
 theorem C09_body_kind_matters_raw :
@@ -217,7 +244,7 @@ theorem C09_classify (c : Cell) (a : Args) (keyOf : Args → Args)
     body with the right receiver**: `get_async_fn` gives None exactly for an undecorated function;
     `get_async_or_sync_fn` then gives the function itself (whose call is its value); `async_call` wraps that value
     in a future - so `async_call` works for every callable -/
-theorem C09_convert (c : Cell) (a : Args) (keyOf : Args → Args)
+theorem C09_convert_partial (c : Cell) (a : Args) (keyOf : Args → Args)
     (h : supported c.kind c.ft c.acc = true) :
     let b := c.callable
     let a' := callerArgs c.ft c.acc 0 a
@@ -225,15 +252,27 @@ theorem C09_convert (c : Cell) (a : Args) (keyOf : Args → Args)
     (getAsyncFn b = .absent ↔ c.kind = .raw) ∧
     appConv (Env.idle keyOf) (getAsyncFn b) b a' = (if c.kind = .raw then .err .noAsynq else .fut own) ∧
     appConv (Env.idle keyOf) (getAsyncOrSyncFn b) b a' = (if c.kind = .raw then c.refVal own else .fut own) ∧
-    asyncCall (Env.idle keyOf) b a' = .futOf (c.refVal own) := by
+    (a.fnFree = true → asyncCall (Env.idle keyOf) b a' = .futOf (c.refVal own)) := by
   obtain ⟨k, ft, acc, bk⟩ := c
+  suffices hs :
+      (getAsyncFn (Cell.callable ⟨k, ft, acc, bk⟩) = .absent ↔ k = .raw) ∧
+      appConv (Env.idle keyOf) (getAsyncFn (Cell.callable ⟨k, ft, acc, bk⟩)) (Cell.callable ⟨k, ft, acc, bk⟩) (callerArgs ft acc 0 a) =
+        (if k = .raw then .err .noAsynq else .fut ⟨1, refArgs ft acc 0 a, k.userWrapped⟩) ∧
+      appConv (Env.idle keyOf) (getAsyncOrSyncFn (Cell.callable ⟨k, ft, acc, bk⟩)) (Cell.callable ⟨k, ft, acc, bk⟩) (callerArgs ft acc 0 a) =
+        (if k = .raw then Cell.refVal ⟨k, ft, acc, bk⟩ ⟨1, refArgs ft acc 0 a, k.userWrapped⟩
+         else .fut ⟨1, refArgs ft acc 0 a, k.userWrapped⟩) ∧
+      asyncCallBody (Env.idle keyOf) (Cell.callable ⟨k, ft, acc, bk⟩) (callerArgs ft acc 0 a) =
+        .futOf (Cell.refVal ⟨k, ft, acc, bk⟩ ⟨1, refArgs ft acc 0 a, k.userWrapped⟩) by
+    obtain ⟨s1, s2, s3, s4⟩ := hs
+    refine ⟨s1, s2, s3, fun hfn => ?_⟩
+    rw [asyncCall_of_free _ _ _ (by rw [callerArgs_hasKw]; exact (fnFree_iff a).mp hfn)]
+    exact s4
   have hc := modelCls_eq_ref k ft acc bk h
   simp only [modelCls, refCls, Cls.mk.injEq] at hc
   obtain ⟨-, h2, h3, h4, h5⟩ := hc
   simp only [hasAsyncFn] at h3
-  dsimp only
   rw [h4, h5]
-  simp only [asyncCall, appConv, h2, h3]
+  simp only [asyncCallBody, appConv, h2, h3]
   have hcall := call_eq k ft acc bk a keyOf h
   have hasynq := asynq_eq k ft acc bk a keyOf h
   cases k <;> cases bk <;>
@@ -269,8 +308,14 @@ theorem C09_separates (keyOf : Args → Args) (x : Args) (t : Table) :
 /-- **C09 as a whole**: for every case of a supported cell (returning or raising body, parameter signature,
     ARBITRARY argument lists, relation of the second call, kind of value objects) the observations of the model are
     accepted by `spec` - the same Boolean function the check evaluates on the observations of the real implementation -/
-theorem C09_spec_holds (c : Case) (h : supported c.cell.kind c.cell.ft c.cell.acc = true) :
-    spec c (modelReport c) = true := by
+theorem C09_spec_holds_partial (c : Case) (h : supported c.cell.kind c.cell.ft c.cell.acc = true)
+    (hfn : c.args.fnFree = true) : spec c (modelReport c) = true := by
+  unfold spec
+  rw [h, modelReport_eq_F c hfn, modelReport_eq_ref c h, reportClause_self]; rfl
+
+/-- the same WITHOUT the hypothesis for the repaired tree (`async_call(fn, /, *args, **kwargs)`: `modelReportF`) -/
+theorem C09_spec_holds_repaired (c : Case) (h : supported c.cell.kind c.cell.ft c.cell.acc = true) :
+    spec c (modelReportF c) = true := by
   unfold spec
   rw [h, modelReport_eq_ref c h, reportClause_self]; rfl
 
@@ -286,11 +331,51 @@ theorem C09_spec_exact (c : Case) (r : Report) :
   · rintro ⟨h1, h2⟩; exact ⟨h1, h2.symm⟩
   · rintro ⟨h1, h2⟩; exact ⟨h1, h2.symm⟩
 
+/-! ## the genuine defect: a keyword argument called `fn` breaks async_call (and only async_call) -/
+
+/-- **`async_call(f, ..., fn=v)` never reaches `f`** (the code as it is, decorators.py:398
+    `def async_call(fn, *args, **kwargs)`): for EVERY cell, every argument list that passes a keyword called `fn`, every
+    environment, signature and relation, each convention that goes through async_call (`async_call(b, ...)`,
+    `yield async_call.asynq(b, ...)`, two of them in one yield) ends in TypeError and enters no body.  The other
+    conventions are untouched by the keyword (`C09_direct`, `C09_sync` carry no hypothesis on the keywords): for a body
+    that accepts the keyword (`**kwargs`, or a parameter called `fn`) the conventions DISAGREE - the property is false
+    there: `C09_async_call_fn_counterexample`. -/
+theorem C09_async_call_kw_fn (c : Cell) (a : Args) (rel : Rel) (env : Env) (s : Sig) (raises : Bool) (cv : Cv)
+    (hfn : a.fnFree = false) (hcv : cv.viaAsyncCall = true) :
+    (modelCv env c cv a rel).res = .err .typeError ∧
+    (obsOf s raises cv (modelCv env c cv a rel)).log = [] ∧
+    (obsOf s raises cv (modelCv env c cv a rel)).out = .raised .typeError := by
+  have h' : a.hasKw nameFn = true := by simpa [Args.fnFree] using hfn
+  rw [modelCv_of_fn env c cv a rel h' hcv]
+  cases cv <;> first | (simp [Cv.viaAsyncCall] at hcv; done) | (refine ⟨rfl, ?_, ?_⟩ <;> simp [obsOf, execRes, Err.cls])
+
+/-- **C09 is FALSE of the current code** (witness; also the necessity witness of the hypothesis `fnFree` of every
+    `_partial` theorem): module-level `@asynq() def f(*args, **kwargs)` called as `f(x, fn=v)`.  The synchronous call,
+    `.asynq(...).value()`, the yield, `get_async_fn`, `get_async_or_sync_fn`, `get_async_fn(wrap_if_none=True)` run the
+    body with (x, fn=v) and return its value; `async_call(f, x, fn=v)` and `yield async_call.asynq(f, x, fn=v)` raise
+    TypeError and enter nothing.  The model's own report is rejected by `spec` (clause body@asyncCall); the report of
+    the repaired tree is accepted. -/
+theorem C09_async_call_fn_counterexample :
+    supported .asynq .plain .direct = true ∧
+    (⟨[30], [(nameFn, 46)]⟩ : Args).fnFree = false ∧
+    ((modelReport ⟨⟨.asynq, .plain, .direct, .plain⟩, false, .var, ⟨[30], [(nameFn, 46)]⟩, false, [], .args, .tok⟩).obs.map
+        (fun o => (o.cv, o.log.map (·.seen), o.out))).take 6 =
+      [(.sync, [[0, 30, 0, 0, 6, 46]], .ok 1 false), (.asynqValue, [[0, 30, 0, 0, 6, 46]], .ok 1 false),
+       (.yieldAsynq, [[0, 30, 0, 0, 6, 46]], .ok 1 false), (.nestedSync, [[0, 30, 0, 0, 6, 46]], .ok 1 false),
+       (.asyncCall, [], .raised .typeError), (.asyncCallSync, [], .raised .typeError)] ∧
+    spec ⟨⟨.asynq, .plain, .direct, .plain⟩, false, .var, ⟨[30], [(nameFn, 46)]⟩, false, [], .args, .tok⟩
+      (modelReport ⟨⟨.asynq, .plain, .direct, .plain⟩, false, .var, ⟨[30], [(nameFn, 46)]⟩, false, [], .args, .tok⟩) = false ∧
+    specClause ⟨⟨.asynq, .plain, .direct, .plain⟩, false, .var, ⟨[30], [(nameFn, 46)]⟩, false, [], .args, .tok⟩
+      (modelReport ⟨⟨.asynq, .plain, .direct, .plain⟩, false, .var, ⟨[30], [(nameFn, 46)]⟩, false, [], .args, .tok⟩) = "body@asyncCall" ∧
+    spec ⟨⟨.asynq, .plain, .direct, .plain⟩, false, .var, ⟨[30], [(nameFn, 46)]⟩, false, [], .args, .tok⟩
+      (modelReportF ⟨⟨.asynq, .plain, .direct, .plain⟩, false, .var, ⟨[30], [(nameFn, 46)]⟩, false, [], .args, .tok⟩) = true := by
+  decide
+
 /-- **`@async_proxy(pure=True)` is a pure async function for every helper** (the repaired defect): through every
     access path and for ARBITRARY arguments the plain call hands back a future of the body with the right receiver,
     `is_pure_async_fn` and `is_async_fn` answer True, `get_async_fn` and `get_async_or_sync_fn` hand back the callable
     itself, and `async_call` is that same future - not a future wrapped in another future -/
-theorem C09_proxy_pure (ft : FnType) (acc : Access) (bk : BodyKind) (a : Args) (keyOf : Args → Args)
+theorem C09_proxy_pure_partial (ft : FnType) (acc : Access) (bk : BodyKind) (a : Args) (keyOf : Args → Args)
     (h : supported .proxyPure ft acc = true) :
     let b := Cell.callable ⟨.proxyPure, ft, acc, bk⟩
     let a' := callerArgs ft acc 0 a
@@ -298,12 +383,18 @@ theorem C09_proxy_pure (ft : FnType) (acc : Access) (bk : BodyKind) (a : Args) (
     app (Env.idle keyOf) .call b a' = .fut own ∧
     isPureAsyncFn b = true ∧ isAsyncFn b = true ∧ hasAsyncFn b = false ∧
     getAsyncFn b = .self ∧ getAsyncOrSyncFn b = .self ∧
-    asyncCall (Env.idle keyOf) b a' = .fut own ∧
-    (asyncCall (Env.idle keyOf) b a').value = (app (Env.idle keyOf) .call b a').value := by
+    (a.fnFree = true →
+      asyncCall (Env.idle keyOf) b a' = .fut own ∧
+      (asyncCall (Env.idle keyOf) b a').value = (app (Env.idle keyOf) .call b a').value) := by
+  have hb : ∀ b a', (callerArgs ft acc 0 a = a') → a.fnFree = true →
+      asyncCall (Env.idle keyOf) b a' = asyncCallBody (Env.idle keyOf) b a' := by
+    intro b a' ha hfn
+    subst ha
+    exact asyncCall_of_free _ _ _ (by rw [callerArgs_hasKw]; exact (fnFree_iff a).mp hfn)
   cases ft <;> cases acc <;> cases bk <;>
     first
     | (simp [supported] at h; done)
-    | exact ⟨rfl, rfl, rfl, rfl, rfl, rfl, rfl, rfl⟩
+    | exact ⟨rfl, rfl, rfl, rfl, rfl, rfl, fun hfn => by rw [hb _ _ rfl hfn]; exact ⟨rfl, rfl⟩⟩
 
 /-! ## a second call of the same attribute: other receiver, other argument objects, colliding hashes -/
 
@@ -322,32 +413,35 @@ theorem C09_dict_hash_irrelevant (h h' : Nat → Nat) (l : Table) (k : Nat × Ar
     (`Cell.refVal`: two generator objects for an undecorated generator function under `async_call`).
     For every cell, ARBITRARY argument lists, ARBITRARY hashes of the values (`hf`: all of them may collide),
     returning or raising bodies, and every key function that separates the two calls. -/
-theorem C09_second_call (c : Cell) (a : Args) (rel : Rel) (cv : Cv) (keyOf : Args → Args) (hf : Nat → Nat) (rs : Bool)
+theorem C09_second_call_partial (c : Cell) (a : Args) (rel : Rel) (cv : Cv) (keyOf : Args → Args) (hf : Nat → Nat) (rs : Bool)
     (h : supported c.kind c.ft c.acc = true) (hcv : cv.isSib = true)
     (hne : identicalSib c.ft c.acc rel a = false)
-    (hkey : keyOf (refArgsSib c.ft c.acc rel a) ≠ keyOf (refArgs c.ft c.acc 0 a)) :
+    (hkey : keyOf (refArgsSib c.ft c.acc rel a) ≠ keyOf (refArgs c.ft c.acc 0 a))
+    (hfn : a.fnFree = true) :
     modelCv (Env.quiet keyOf hf rs) c cv a rel =
       (if availableSib c.kind cv then
          ⟨[c.refVal ⟨1, refArgsSib c.ft c.acc rel a, c.kind.userWrapped⟩],
           c.refVal ⟨1, refArgs c.ft c.acc 0 a, c.kind.userWrapped⟩, false⟩
        else ⟨[.err .noAsynq], .err .noAsynq, false⟩) := by
+  rw [modelCv_eq_F _ _ _ _ _ hfn]
   obtain ⟨k, ft, acc, bk⟩ := c
-  unfold modelCv
+  unfold modelCvF modelCvWith
   simp only [hcv, hne, Bool.and_false, Bool.false_eq_true, if_false]
+  show modelCvRunF (Env.quiet keyOf hf rs) ⟨k, ft, acc, bk⟩ cv a rel = _
   rw [modelCvRun_sib_eq_ref k ft acc bk cv a keyOf hf rs rel h hcv hkey]
   cases cv <;> first | (simp [Cv.isSib] at hcv; done) | (cases k <;> rfl)
 
 /-- the same for the library's own key function on same-spelled calls (the identity on the bound arguments):
     the two calls are separated as soon as the second is not literally the first (`identicalSib`) -/
-theorem C09_second_call_default_key (c : Cell) (a : Args) (rel : Rel) (cv : Cv) (hf : Nat → Nat) (rs : Bool)
+theorem C09_second_call_default_key_partial (c : Cell) (a : Args) (rel : Rel) (cv : Cv) (hf : Nat → Nat) (rs : Bool)
     (h : supported c.kind c.ft c.acc = true) (hcv : cv.isSib = true)
-    (hne : identicalSib c.ft c.acc rel a = false) :
+    (hne : identicalSib c.ft c.acc rel a = false) (hfn : a.fnFree = true) :
     modelCv (Env.quiet id hf rs) c cv a rel =
       (if availableSib c.kind cv then
          ⟨[c.refVal ⟨1, refArgsSib c.ft c.acc rel a, c.kind.userWrapped⟩],
           c.refVal ⟨1, refArgs c.ft c.acc 0 a, c.kind.userWrapped⟩, false⟩
        else ⟨[.err .noAsynq], .err .noAsynq, false⟩) :=
-  C09_second_call c a rel cv id hf rs h hcv hne (refArgsSib_ne c.ft c.acc rel a hne)
+  C09_second_call_partial c a rel cv id hf rs h hcv hne (refArgsSib_ne c.ft c.acc rel a hne) hfn
 
 /-- the second call of relation `recv` really has ANOTHER receiver, the observed call keeps its own: the first
     argument the two bodies receive differs, the rest is the caller's argument list -/
@@ -362,21 +456,23 @@ theorem C09_second_call_receivers (ft : FnType) (acc : Access) (a : Args) (h : h
     callable that has `.asynq` are a future of its own body with its own receiver and arguments.  No hypothesis on
     the key function and none on how the entries got there; `C09_own_entries` is the complement (an entry MAY sit under
     this call's key, the tables being consistent and the key function separating). -/
-theorem C09_other_keys_irrelevant (c : Cell) (a : Args) (env : Env)
+theorem C09_other_keys_irrelevant_partial (c : Cell) (a : Args) (env : Env)
     (h : supported c.kind c.ft c.acc = true) (hk : c.kind.hasAsynq = true)
     (ht : ∀ e ∈ env.tasks, e.1 ≠ (1, env.keyOf (refArgs c.ft c.acc 0 a)))
     (hc : ∀ e ∈ env.cache, e.1 ≠ (1, env.keyOf (refArgs c.ft c.acc 0 a))) :
     app env .asynq c.callable (callerArgs c.ft c.acc 0 a) = .fut ⟨1, refArgs c.ft c.acc 0 a, c.kind.userWrapped⟩ ∧
-    asyncCall env c.callable (callerArgs c.ft c.acc 0 a) = .fut ⟨1, refArgs c.ft c.acc 0 a, c.kind.userWrapped⟩ := by
+    (a.fnFree = true →
+      asyncCall env c.callable (callerArgs c.ft c.acc 0 a) = .fut ⟨1, refArgs c.ft c.acc 0 a, c.kind.userWrapped⟩) := by
   obtain ⟨k, ft, acc, bk⟩ := c
   have h1 := asynq_other_keys k ft acc bk a env h hk ht hc
-  refine ⟨h1, ?_⟩
+  refine ⟨h1, fun hfn => ?_⟩
+  rw [asyncCall_of_free _ _ _ (by rw [callerArgs_hasKw]; exact (fnFree_iff a).mp hfn)]
   have hc := modelCls_eq_ref k ft acc bk h
   simp only [modelCls, refCls, Cls.mk.injEq] at hc
   obtain ⟨-, h2, h3, -, -⟩ := hc
   simp only [hasAsyncFn] at h3
   have hp : k.pureLike = false := by cases k <;> first | rfl | (simp [Kind.hasAsynq] at hk)
-  simp only [asyncCall, h2, h3, hp, hk]
+  simp only [asyncCallBody, h2, h3, hp, hk]
   exact h1
 
 /-- **own entries too**: like `C09_other_keys_irrelevant`, but the tables may hold entries of THIS function under
@@ -436,6 +532,78 @@ theorem C09_consistent_needed :
     app ⟨id, [((1, ⟨[1, 30], []⟩), ⟨77, ⟨[99], []⟩, false⟩)], [], id, false⟩ .asynq
         (Cell.callable ⟨.dedup, .plain, .inst, .plain⟩) (callerArgs .plain .inst 0 ⟨[30], []⟩) =
       .fut ⟨77, ⟨[99], []⟩, false⟩ := by decide
+
+/-- `hself` of `C09_any_receiver` is needed: an `acached_per_instance` method fetched through the class and called
+    without any argument has no `self` - the wrapper's own parameter list rejects the call -/
+theorem C09_self_needed :
+    app (Env.idle id) .asynq (descrGet (build .acpi .plain .plain false) none 2) ⟨[], []⟩ ≠ .fut ⟨1, ⟨[], []⟩, false⟩ := by
+  decide
+
+/-- `hr` (`rawGen = false`) of `C09_outcome_partial` is needed: an undecorated generator function enters no body -/
+theorem C09_rawgen_needed :
+    Cell.rawGen ⟨.raw, .plain, .direct, .gen⟩ = true ∧
+    (obsOf (mkSig .var false) false .asyncCall (modelCv (Env.idle id) ⟨.raw, .plain, .direct, .gen⟩ .asyncCall ⟨[30], []⟩)).log = [] ∧
+    (obsOf (mkSig .var false) false .asyncCall (modelCv (Env.idle id) ⟨.raw, .plain, .direct, .gen⟩ .asyncCall ⟨[30], []⟩)).out =
+      .gotGenerator := by decide
+
+/-- `hne` of `C09_second_call_partial` is needed: when the second call would BE the observed call (no receiver to
+    vary, no argument to replace) the convention is not run at all -/
+theorem C09_second_call_distinct_needed :
+    identicalSib .plain .direct .args ⟨[], []⟩ = true ∧
+    modelCv (Env.quiet id id false) ⟨.dedup, .plain, .direct, .plain⟩ .sibling ⟨[], []⟩ .args = CvRes.skipped := by decide
+
+/-- `hasRecvParam` of `C09_second_call_receivers` is needed: a staticmethod has no receiver to vary - the second call
+    falls back to other argument objects -/
+theorem C09_recv_param_needed :
+    hasRecvParam .static .inst = false ∧
+    (refArgs .static .inst 0 ⟨[30], []⟩).pos = [30] ∧ (refArgsSib .static .inst .recv ⟨[30], []⟩).pos = [130] := by decide
+
+/-- `hc` of `C09_other_keys_irrelevant_partial` / `Table.ownConsistent` of the CACHE in `C09_own_entries` is needed: a
+    cache entry under this call's key that no call of the function put there is what alru_cache returns -/
+theorem C09_cache_consistent_needed :
+    app ⟨id, [], [((1, ⟨[1, 30], []⟩), ⟨77, ⟨[99], []⟩, false⟩)], id, false⟩ .asynq
+        (Cell.callable ⟨.alru, .plain, .inst, .plain⟩) (callerArgs .plain .inst 0 ⟨[30], []⟩) =
+      .fut ⟨77, ⟨[99], []⟩, false⟩ := by decide
+
+/-- `hk` (`hasAsynq`) of `C09_other_keys_irrelevant_partial` / `C09_own_entries` is needed: a pure function has no `.asynq` -/
+theorem C09_has_asynq_needed :
+    Kind.hasAsynq .pure = false ∧
+    app Env.empty .asynq (Cell.callable ⟨.pure, .plain, .inst, .plain⟩) (callerArgs .plain .inst 0 ⟨[30], []⟩) = .err .noAsynq := by
+  decide
+
+/-- **HOW sync_fn is supplied matters** (second audit, N5): each of the two pair decorators works with ONE spelling,
+    the one `build` (and the harness) uses - `@asynq(sync_fn=...)` re-binds sync_fn through the descriptor protocol
+    (AsyncAndSyncPairDecorator.__get__, decorators.py:263-280), so over a classmethod / staticmethod sync_fn must be
+    wrapped LIKE fn; `@async_proxy(sync_fn=...)` has no such `__get__` and calls `sync_fn(receiver, ...)` itself
+    (decorators.py:319), so sync_fn must be the BARE function.  With the other spelling:
+    * `@async_proxy(sync_fn=<classmethod object>) @classmethod`: the plain call fails ('classmethod' object is not
+      callable) while `.asynq` works;
+    * `@asynq(sync_fn=<bare function>) @classmethod`: through an instance sync_fn runs with the INSTANCE where the async
+      body gets the class; through the class it gets no receiver at all.
+    Reproduced on the real code (probe in INTEGRATION.md).  The property's sentence "when sync_fn is supplied the
+    synchronous call runs sync_fn instead [with the same bound instance/class]" holds for the working spelling only:
+    that is the restriction built into `build` (ASSUMPTIONS of the check), and this theorem is its necessity witness. -/
+theorem C09_sync_fn_spelling_needed :
+    -- the spellings of `build`: both calls get the class
+    app (Env.idle id) .call (descrGet (build .pair .classm .plain false) (some 1) 2) ⟨[30], []⟩ = .val ⟨2, ⟨[2, 30], []⟩, false⟩ ∧
+    app (Env.idle id) .call (descrGet (build .pairProxy .classm .plain false) none 2) ⟨[30], []⟩ = .val ⟨2, ⟨[2, 30], []⟩, false⟩ ∧
+    -- @async_proxy(sync_fn=classmethod(sf)) @classmethod
+    app (Env.idle id) .call
+        (descrGet (mkDec .pairProxy (.cmethod (.func ⟨1, false, true, false⟩)) (.cmethod (.func ⟨2, false, false, false⟩))) none 2)
+        ⟨[30], []⟩ = .err .typeError ∧
+    app (Env.idle id) .asynq
+        (descrGet (mkDec .pairProxy (.cmethod (.func ⟨1, false, true, false⟩)) (.cmethod (.func ⟨2, false, false, false⟩))) none 2)
+        ⟨[30], []⟩ = .fut ⟨1, ⟨[2, 30], []⟩, false⟩ ∧
+    -- @asynq(sync_fn=sf) @classmethod
+    app (Env.idle id) .call
+        (descrGet (mkDec .pair (.cmethod (.func ⟨1, false, false, false⟩)) (.func ⟨2, false, false, false⟩)) (some 1) 2)
+        ⟨[30], []⟩ = .val ⟨2, ⟨[1, 30], []⟩, false⟩ ∧
+    app (Env.idle id) .call
+        (descrGet (mkDec .pair (.cmethod (.func ⟨1, false, false, false⟩)) (.func ⟨2, false, false, false⟩)) none 2)
+        ⟨[30], []⟩ = .val ⟨2, ⟨[30], []⟩, false⟩ ∧
+    app (Env.idle id) .asynq
+        (descrGet (mkDec .pair (.cmethod (.func ⟨1, false, false, false⟩)) (.func ⟨2, false, false, false⟩)) (some 1) 2)
+        ⟨[30], []⟩ = .fut ⟨1, ⟨[2, 30], []⟩, false⟩ := by decide
 
 /-! ## holding by construction of the model (NOT headline claims; the content is the correspondence run) -/
 
@@ -588,14 +756,25 @@ example : app ⟨id, [((1, ⟨[1, 30], []⟩), ⟨1, ⟨[1, 30], []⟩, false⟩
     .asynq (Cell.callable ⟨.dedup, .plain, .inst, .plain⟩) (callerArgs .plain .inst 0 ⟨[30], []⟩) =
       .fut ⟨1, ⟨[1, 30], []⟩, false⟩ := by decide
 
-/-! ## history of the world, an overriding subclass (`XCase`) -/
+/-! ## history of the world, an overriding subclass (`XCase`)
 
-/-- **no history leaves anything behind**: for EVERY list of events (uses of the attribute in this or another thread,
+  BY CONSTRUCTION (second audit, N12): `HState.step` is the identity on every state a history can reach - no
+  constructor of `Ev` writes `shadowed` or `mode` (`aioCall s f = s` is `rfl`), and `modelReportH` does not feed the
+  history into `Env` (the `use` events of the harness really fill the caches of alru_cache / acached_per_instance with
+  entries for THIRD argument objects; the model's environment stays cold - that such entries do not matter is
+  `C09_other_keys_irrelevant_partial`, but it is not derived here).  So the three `C09_history_*_by_construction`
+  statements say only that THE MODEL has no state a history could change; that the CODE has none is established by the
+  differential run of the history family alone.  What the steps WOULD do to a state that is not clean is shown by the two
+  contrast witnesses `C09_aio_exit_needed` (a reset skipped on the failing exit) and `C09_use_shadow_needed` (a `__get__`
+  that caches the binder in the instance `__dict__`, the shape of seeded change C09-9).  None of these is a headline
+  claim. -/
+
+/-- for EVERY list of events (uses of the attribute in this or another thread,
     helper calls, `copy` / `deepcopy` of the instances, `.asyncio()` calls that return or fail - of a helper or of the
     attribute itself -, gc, debug options, scoped values, mock patches) and EVERY starting state: the asyncio-mode flag
     is afterwards what it was before, and if no instance `__dict__` shadowed the attribute none does.  (Each step mirrors
     what the code does to these two pieces of state; that the code has no third one is the correspondence run's part.) -/
-theorem C09_history_restores (raises : Bool) (s : HState) (h : List Ev) :
+theorem C09_history_restores_by_construction (raises : Bool) (s : HState) (h : List Ev) :
     (runHistFrom raises s h).mode = s.mode ∧ (s.shadowed = [] → (runHistFrom raises s h).shadowed = []) := by
   unfold runHistFrom
   induction h generalizing s with
@@ -609,8 +788,8 @@ theorem C09_history_restores (raises : Bool) (s : HState) (h : List Ev) :
     exact ⟨by rw [List.foldl_cons, i1, hm], fun h0 => by rw [List.foldl_cons]; exact i2 (hs h0)⟩
 
 /-- from the initial world (asyncio mode off, nothing shadowed) every history ends in the initial world -/
-theorem C09_history_clean (raises : Bool) (h : List Ev) : runHist raises h = HState.init := by
-  obtain ⟨h1, h2⟩ := C09_history_restores raises HState.init h
+theorem C09_history_clean_by_construction (raises : Bool) (h : List Ev) : runHist raises h = HState.init := by
+  obtain ⟨h1, h2⟩ := C09_history_restores_by_construction raises HState.init h
   have h2' := h2 rfl
   unfold runHist
   cases hr : runHistFrom raises HState.init h with
@@ -621,9 +800,9 @@ theorem C09_history_clean (raises : Bool) (h : List Ev) : runHist raises h = HSt
 
 /-- **the history of the world is irrelevant**: whatever happened before, the model's observations of a case are
     those of the case in a fresh world - so every theorem about `modelReport` / `spec` above holds after ANY history -/
-theorem C09_history_irrelevant (x : XCase) : modelReportH x = modelReport x.base := by
+theorem C09_history_irrelevant_by_construction (x : XCase) : modelReportH x = modelReport x.base := by
   unfold modelReportH
-  rw [C09_history_clean]; rfl
+  rw [C09_history_clean_by_construction]; rfl
 
 /-- the reset on the failing exit is needed (the shape of seeded change C09-8: a generator-based AsyncioMode without
     try/finally): with it skipped, one failed `.asyncio()` call leaves the caller's context in asyncio mode - and the
@@ -637,10 +816,10 @@ theorem C09_aio_exit_needed :
 /-- **C09 as a whole, with history and override**: for every extended case of a supported cell (any history; the
     override family where it is defined) the observations of the model are accepted by `specX`, the observer the
     check evaluates on the observations of the real implementation -/
-theorem C09_spec_holds_ext (x : XCase) (h : supported x.base.cell.kind x.base.cell.ft x.base.cell.acc = true)
-    (ho : x.ovrOk = true) : specX x (modelReportX x) = true := by
+theorem C09_spec_holds_ext_partial (x : XCase) (h : supported x.base.cell.kind x.base.cell.ft x.base.cell.acc = true)
+    (ho : x.ovrOk = true) (hfn : x.base.args.fnFree = true) : specX x (modelReportX x) = true := by
   unfold specX modelReportX refReportX
-  rw [h, ho, C09_history_irrelevant, modelReport_eq_ref x.base h]
+  rw [h, ho, C09_history_irrelevant_by_construction, modelReport_eq_F x.base hfn, modelReport_eq_ref x.base h]
   cases x.ovr <;> simp [reportClause_self]
 
 /-- **the extended observer is exact** -/
@@ -659,13 +838,15 @@ theorem C09_ext_conservative (x : XCase) (r : Report) (h : x.ovr = false) : spec
   unfold specX spec refReportX XCase.ovrOk
   simp [h]
 
-/-- **what the override family expects** (a corollary of `C09_outcome` pushed through `ovrObs`; it is an expectation
-    on observations, not a model of `super()`): for every asynchronous convention that is run, the overriding body
+/-- BY CONSTRUCTION (second audit, N12 / G): `ovrLog` unfolded on `C09_outcome_partial` - the same conclusion holds for
+    ANY observation with that log; no override is modelled, and for override cases CORR and SPEC are the SAME
+    comparison against this one hand-written expectation.
+    What the override family expects (an expectation on observations, not a model of `super()`): for every asynchronous convention that is run, the overriding body
     (identity 5) is entered with exactly the bound parameters the inherited body (identity 1) is then entered with,
     and the outcome is the inherited body's; nothing is entered when the arguments do not bind -/
-theorem C09_override_log (c : Cell) (a : Args) (keyOf : Args → Args) (s : Sig) (raises : Bool) (cv : Cv)
+theorem C09_override_log_by_construction (c : Cell) (a : Args) (keyOf : Args → Args) (s : Sig) (raises : Bool) (cv : Cv)
     (h : supported c.kind c.ft c.acc = true) (hv : available c.kind cv = true) (hr : c.rawGen = false)
-    (hf : cv.inFlight = false) :
+    (hf : cv.inFlight = false) (hfn : a.fnFree = true) :
     (ovrObs (obsOf s raises cv (modelCv (Env.idle keyOf) c cv a))).log =
         (match bind s (refArgs c.ft c.acc 0 a) with
          | some seen => [⟨5, seen, true⟩, ⟨1, seen, true⟩]
@@ -674,7 +855,7 @@ theorem C09_override_log (c : Cell) (a : Args) (keyOf : Args → Args) (s : Sig)
         (match bind s (refArgs c.ft c.acc 0 a) with
          | some _ => bodyOutcome raises 1 c.kind.userWrapped
          | none => .raised .typeError) := by
-  obtain ⟨ho, hl⟩ := C09_outcome c a keyOf s raises cv h hv hr
+  obtain ⟨ho, hl⟩ := C09_outcome_partial c a keyOf s raises cv h hv hr hfn
   have hne : cv ≠ .twin := by intro e; subst e; simp [Cv.inFlight] at hf
   have hcv : (obsOf s raises cv (modelCv (Env.idle keyOf) c cv a)).cv = cv := rfl
   unfold ovrObs
@@ -682,6 +863,18 @@ theorem C09_override_log (c : Cell) (a : Args) (keyOf : Args → Args) (s : Sig)
   simp only [Bool.false_eq_true, if_false]
   rw [hl hne, ho]
   cases bind s (refArgs c.ft c.acc 0 a) <;> simp [ovrLog]
+
+/-- contrast model for `shadowed`: what a use of the attribute would leave behind if `__get__` cached the binder in the
+    instance `__dict__` (a non-data descriptor is then shadowed for that instance: the shape of seeded change C09-9) -/
+def useLeaky (s : HState) (inst : Nat) : HState := { s with shadowed := inst :: s.shadowed }
+
+/-- ... then the state is not clean, `copy` really carries the entry over to the copy (`HState.step` is NOT the identity
+    there), a later history cannot remove it, and the model has no report the observer would accept -/
+theorem C09_use_shadow_needed :
+    (useLeaky HState.init 3).clean = false ∧
+    (HState.step false (useLeaky HState.init 3) .copy).shadowed = [3, 53] ∧
+    (runHistFrom false (useLeaky HState.init 3) [.use, .copy, .aioFail, .gc]).clean = false ∧
+    HState.step false HState.init .copy = HState.init := by decide
 
 /-- the history and override dimensions at work: a pair method fetched through an instance of the subclass that
     overrides it, after a use, a copy and a failed `.asyncio()` call - the synchronous call enters the overriding
@@ -697,9 +890,22 @@ example :
     specX ⟨⟨⟨.pair, .plain, .subInst, .gen⟩, false, .fixed, ⟨[30], []⟩, false, [], .args, .tok⟩, [.use], true⟩
       (modelReport ⟨⟨.pair, .plain, .subInst, .gen⟩, false, .fixed, ⟨[30], []⟩, false, [], .args, .tok⟩) = false := by decide
 
-/-- ... and an override case outside the family is rejected whatever was observed -/
-example :
+/-- `ho` (`ovrOk`) of `C09_spec_holds_ext_partial` is needed: an override case outside the family is rejected whatever
+    was observed - the model's own report included -/
+theorem C09_ovr_ok_needed :
+    XCase.ovrOk ⟨⟨⟨.pair, .classm, .subCls, .gen⟩, false, .fixed, ⟨[30], []⟩, false, [], .recv, .tok⟩, [], true⟩ = false ∧
+    specX ⟨⟨⟨.pair, .classm, .subCls, .gen⟩, false, .fixed, ⟨[30], []⟩, false, [], .recv, .tok⟩, [], true⟩
+      (modelReportX ⟨⟨⟨.pair, .classm, .subCls, .gen⟩, false, .fixed, ⟨[30], []⟩, false, [], .recv, .tok⟩, [], true⟩) = false ∧
     specClauseX ⟨⟨⟨.pair, .classm, .subCls, .gen⟩, false, .fixed, ⟨[30], []⟩, false, [], .recv, .tok⟩, [], true⟩
       Report.undefined = "unsupported-override" := by decide
+
+/-- `x.ovr = false` of `C09_ext_conservative` is needed: with an overriding subclass the observer expects the overriding
+    body's entries, which `spec` of the underlying case rejects -/
+theorem C09_ext_conservative_needed :
+    specX ⟨⟨⟨.pair, .plain, .subInst, .gen⟩, false, .fixed, ⟨[30], []⟩, false, [], .args, .tok⟩, [], true⟩
+      (modelReportX ⟨⟨⟨.pair, .plain, .subInst, .gen⟩, false, .fixed, ⟨[30], []⟩, false, [], .args, .tok⟩, [], true⟩) = true ∧
+    spec ⟨⟨.pair, .plain, .subInst, .gen⟩, false, .fixed, ⟨[30], []⟩, false, [], .args, .tok⟩
+      (modelReportX ⟨⟨⟨.pair, .plain, .subInst, .gen⟩, false, .fixed, ⟨[30], []⟩, false, [], .args, .tok⟩, [], true⟩) = false := by
+  decide
 
 end AsynqModel.Decorators
